@@ -139,13 +139,16 @@ type Sched struct {
 	MapPolicy      int // 0 ascending, 1 descending, >=2 rotate by (MapPolicy-1)
 	seq            map[uintptr]int
 	OnDurable      func(t *Thread, site string, after bool) bool // true => crash the thread's node
-	CrashPrefix    func(t *Thread) string
-	DurableCount   int
-	Monitor        func(ev string, args ...interface{})
-	Watchdog       time.Duration
-	nextID         int
-	pendingKill    string
-	tunables       map[string]uint64
+	// FailDurable, when set, may make a durable write fail instead of happening: a non-nil error is returned to the
+	// caller of the write and nothing is written.
+	FailDurable  func(t *Thread, where string) error
+	CrashPrefix  func(t *Thread) string
+	DurableCount int
+	Monitor      func(ev string, args ...interface{})
+	Watchdog     time.Duration
+	nextID       int
+	pendingKill  string
+	tunables     map[string]uint64
 }
 
 // S is the active execution (nil => inactive, shims are plain).
@@ -854,6 +857,12 @@ func Durable(where string, fn func() error) error {
 	s.DurableCount++
 	if s.OnDurable(s.cur, where, false) {
 		s.crashCurrent()
+	}
+	if s.FailDurable != nil {
+		if err := s.FailDurable(s.cur, where); err != nil {
+			// the store refuses the write (disk full, batch too large, I/O error): nothing is written
+			return err
+		}
 	}
 	err := fn()
 	if s.OnDurable(s.cur, where, true) {
